@@ -66,7 +66,12 @@ def expected_vs_real(e, n):
         cmp("result", e["result"], (n.get("return") or {}).get("result"))
     elif k == "BlockStmt":
         want = [src[a:b].decode("utf-8") for a, b in e["stmt_spans"]]
-        cmp("statements", want, (n.get("block") or {}).get("stmts"))
+        got = (n.get("block") or {}).get("stmts")
+        # the recorded finding is that the braces are listed as statements; anything else that differs is another matter
+        if isinstance(got, list) and len(got) >= 2 and got[0] == "{" and got[-1] == "}" and got[1:-1] != want:
+            cmp("statements-between-braces", want, got[1:-1])
+        else:
+            cmp("statements", want, got)
     return diffs
 
 
@@ -83,5 +88,65 @@ def run(run):
     G.Gen.file = file_with_src
     try:
         c05.run(run, kinds=KINDS, pid="C06", compare=expected_vs_real)
+        long_texts(run)
     finally:
         G.Gen.file = orig
+
+
+def long_texts(run):
+    """statements, operands, arguments and conditions of several kilobytes: their texts are the source text, whole"""
+    from vlib import common as C, scan as S
+    h = C.Harness()
+    try:
+        for size in ([9000] if run.depth == "quick" else [4200, 9000, 70000]):
+            n = size // 12
+            big_sum = "pick(" + ", ".join("t[%d]" % j for j in range(n)) + ")"       # ~ size bytes, one (flat) expression
+            big_lit = '"' + ("lorem ipsum %d " * (size // 16)) % tuple(range(size // 16)) + '"'
+            s1 = "int first = 1;"
+            s2 = "if (first > 0) { " + " ".join("emit(%d);" % j for j in range(n)) + " }"
+            s3 = "log(" + big_lit + ", first);"
+            s4 = "return " + big_sum + ";"
+            src = ("class Long {\n  int[] t;\n  int table() {\n    %s\n    %s\n    %s\n    %s\n  }\n  void emit(int x) { }\n  void log(String a, int b) { }\n  int pick(int... xs) { return 0; }\n}\n" % (s1, s2, s3, s4)).encode()
+            real = S.real_build(h, src, "long/Long.java", timeout=300)
+            run.count(("long-texts", size))
+            if real.get("outcome") != "ok":
+                run.violation("C06:scan-" + str(real.get("outcome")), "building the graph of a source with statements of %d bytes ends with %s" % (size, real.get("outcome")), dict(size=size))
+                continue
+            # (a block lists its braces as statements: the recorded finding C06 block braces; the statements are what is between them)
+            def inner(x):
+                st = (x.get("block") or {}).get("stmts") or []
+                return st[1:-1] if len(st) >= 2 and st[0] == "{" and st[-1] == "}" else st
+            blocks = [x for x in real["nodes"] if x["type"] == "BlockStmt" and len(inner(x)) == 4]
+            got = inner(blocks[0]) if blocks else None
+            if got != [s1, s2, s3, s4]:
+                bad = [i for i, (a, b) in enumerate(zip(got or [], [s1, s2, s3, s4])) if a != b]
+                run.violation("C06:BlockStmt:long-statement", "a block whose statements are %s bytes long: statement(s) %s are reported with %s bytes" %
+                              ([len(x) for x in (s1, s2, s3, s4)], bad, [len(x) for x in (got or [])]), dict(size=size, generator="checks/c06.py long_texts"))
+            rets = [x for x in real["nodes"] if x["type"] == "ReturnStmt" and (x.get("return") or {}).get("result") is not None]
+            if not any((x["return"]["result"] or "") == big_sum for x in rets):
+                run.violation("C06:ReturnStmt:result", "a returned expression of %d bytes is not reported whole (reported lengths %s)" % (len(big_sum), [len(x["return"]["result"] or "") for x in rets]),
+                              dict(size=size, generator="checks/c06.py long_texts"))
+            calls = [x for x in real["nodes"] if x["type"] == "method_invocation" and x["name"] == "log"]
+            if not calls or (calls[0].get("argValues") or [None])[0] not in (big_lit, big_lit[1:-1]):
+                run.violation("C06:method_invocation:arguments", "a literal argument of %d bytes is not reported whole (reported %s bytes)" %
+                              (len(big_lit), len((calls[0].get("argValues") or [""])[0]) if calls else None), dict(size=size, generator="checks/c06.py long_texts"))
+            ifs = [x for x in real["nodes"] if x["type"] == "IfStmt"]
+            if not ifs or not (ifs[0].get("if") or {}).get("then", "").startswith("{ emit(0);") or len(ifs[0]["if"]["then"]) != len(s2) - len("if (first > 0) "):
+                run.violation("C06:IfStmt:then", "the then-branch of %d bytes is not reported whole (reported %s bytes)" %
+                              (len(s2) - len("if (first > 0) "), len((ifs[0].get("if") or {}).get("then", "")) if ifs else None), dict(size=size, generator="checks/c06.py long_texts"))
+        # literal arguments whose content begins or ends with an escaped quote, is empty, or is one escaped quote
+        lits = ['\\"quoted\\"', 'ends with \\"', '\\"starts', '\\"', '', 'a\\"b', '\\\\', 'tab\\t', "it's", '\\"\\"']
+        src = ("class Q {\n  void m() {\n" + "".join('    log("%s", %d);\n' % (l, i) for i, l in enumerate(lits)) + "  }\n  void log(String a, int b) { }\n}\n").encode()
+        real = S.real_build(h, src, "q/Q.java", timeout=120)
+        run.count(("literal-arguments", len(lits)))
+        if real.get("outcome") == "ok":
+            calls = sorted([x for x in real["nodes"] if x["type"] == "method_invocation" and x["name"] == "log"], key=lambda x: x["line"])
+            for l, x in zip(lits, calls):
+                if (x.get("argValues") or [None])[0] != l:
+                    run.violation("C06:method_invocation:arguments", "the literal argument \"%s\" at line %d is reported as %r (the text between its quotes is %r)" % (l, x["line"], (x.get("argValues") or [None])[0], l),
+                                  dict(source=src.decode(), line=x["line"], generator="checks/c06.py long_texts"))
+                    break
+        else:
+            run.violation("C06:scan-" + str(real.get("outcome")), "building the graph of the literal-argument source ends with %s" % real.get("outcome"), dict(source=src.decode()))
+    finally:
+        h.close()
